@@ -134,6 +134,29 @@ def h_store(cfg):
     held = []            # accepted, not yet delivered (insertion order)
     delivered = []
     key = {}             # id(item) -> symbolic key (priority / filter value)
+    # 'twin': a second store of the same class and capacity in the same environment receiving the mirrored operations
+    twin = cls(env, capacity=cap) if cfg.get('twin') else None
+    treqs = []
+
+    def twin_op(k, op, item=None, th=None):
+        if twin is None:
+            return
+        if op == 'put':
+            if kind == 'prio':
+                t_item = PriorityItem(item.priority, ('twin', k))
+            elif kind == 'filter':
+                t_item = FItem(item.v)
+            else:
+                t_item = ('twin', k)
+            treqs.append(twin.put(t_item))
+        elif op == 'get':
+            treqs.append(twin.get(lambda it, th=th: it.v >= th) if kind == 'filter' else twin.get())
+        else:
+            treqs.append(None)
+            j = op[1]
+            r = treqs[j] if j < len(treqs) else None
+            if r is not None and not r.triggered:
+                r.cancel()
 
     def do_op(k, op):
         if op == 'put':
@@ -150,19 +173,23 @@ def h_store(cfg):
             else:
                 item = ('it', k)
             ev = st.put(item)
+            twin_op(k, op, item=item)
             reqs.append({'k': k, 'kind': 'put', 'ev': ev, 'item': item, 'cancelled': False, 'granted': False})
         elif op == 'get':
             if kind == 'filter':
                 th = sym_int('th%d' % k)
                 ev = st.get(lambda it, th=th: it.v >= th)
+                twin_op(k, op, th=th)
                 reqs.append({'k': k, 'kind': 'get', 'ev': ev, 'th': th, 'cancelled': False, 'granted': False})
             else:
                 ev = st.get()
+                twin_op(k, op)
                 reqs.append({'k': k, 'kind': 'get', 'ev': ev, 'cancelled': False, 'granted': False})
         else:
             j = op[1]
             r = reqs[j] if j < len(reqs) else None
             reqs.append({'k': k, 'kind': 'noop', 'ev': None, 'cancelled': True, 'granted': False})
+            twin_op(k, op)
             if r is not None and r['ev'] is not None and not r['ev'].triggered:
                 if op[0] == 'exit':
                     r['ev'].__exit__(None, None, None)     # what leaving `with resource.put(..) as req:` does
@@ -242,6 +269,19 @@ def h_store(cfg):
     _drive(env, after_step)
     if len([r for r in reqs if r['kind'] != 'noop']) >= 2:
         cover('nontrivial')
+    if twin is not None:
+        same = len(treqs) == len(reqs)
+        for r, t in zip(reqs, treqs):
+            if r['ev'] is None or t is None:
+                continue
+            same = same and (r['ev'].triggered == t.triggered)
+            if r['kind'] == 'get' and r['ev'].triggered and t.triggered and kind != 'store':
+                a, b = r['ev'].value, t.value
+                ka = key[id(a)]
+                kb = b.priority if kind == 'prio' else b.v
+                check('c07.instances-independent', eq(ka, kb), r['k'])
+        check('c07.instances-independent', same and len(twin.items) == len(st.items), 'the twin store ended in another state')
+        cover('two-instances')
     obs('delivered', len(delivered), len(held))
 
 
@@ -306,6 +346,9 @@ def jobs(tier, seed):
     js.append({'harness': 'store', 'weight': 500,
                'cfg': {'ops': ['put'] * 6 + ['get'] * 6, 'burst': [0] + [1] * 5 + [0] + [1] * 5, 'sorts': 'int',
                        'kind': 'prio', 'symcap': False, 'cap': 8}})
+    # two stores of one class in one environment
+    for kind in ('store', 'prio', 'filter'):
+        js.append({'harness': 'store', 'weight': 30, 'cfg': {'ops': ['put', 'get', 'put', 'get'], 'sorts': 'int', 'kind': kind, 'twin': True}})
     # falsy items (0, '', empty containers are items like any other)
     for kind in ('store', 'filter'):
         for ops in (['put', 'get', 'get', 'put'], ['get', 'put', 'put', 'get']):
@@ -331,7 +374,7 @@ META = {
     'required_labels': ['c07.level-in-range', 'c07.level-conserved', 'c07.no-stranded-put', 'c07.no-stranded-get',
                         'c07.store-bounded', 'c07.store-fifo', 'c07.prio-smallest-first', 'c07.filter-first-match',
                         'c07.filter-matches'],
-    'required_covers': ['nontrivial', 'granted', 'delivered', 'cancelled-pending', 'with-exit-pending', 'pending-at-quiescence', 'filter-overtake'],
+    'required_covers': ['nontrivial', 'granted', 'delivered', 'cancelled-pending', 'with-exit-pending', 'pending-at-quiescence', 'filter-overtake', 'two-instances'],
     'bounds': {'quick': 'histories of 3 operations (put/get) plus one cancel of an earlier pending request, issued at symbolic, possibly '
                         'coinciding instants; Container capacity/init/amounts symbolic Int or Real; Store/PriorityStore/FilterStore capacity '
                         'symbolic Int >= 1, priorities and filter thresholds symbolic Int',
